@@ -4,7 +4,7 @@
    is either the sanctioned read/write of the yaqlization attribute or is
    dominated by _validate_name on the original name. *)
 From Coq Require Import List ZArith Bool.
-From YV Require Import Gen.Effects.
+From YV Require Import Common.Corr Gen.Effects.
 Import ListNotations.
 
 Definition op_is_settings (o : opkind) : bool :=
@@ -62,3 +62,13 @@ Proof. vm_compute. repeat split. Qed.
 
 Lemma gated_payload_count : Nat.leb 3 (length (filter p_gated payloads)) = true.
 Proof. vm_compute. reflexivity. Qed.
+
+(* pinned rows (self-check of the generator): the yaql-level functions '#indexer' and '#operator_.' have
+   overloads with a gated (Yaqlized-typed) parameter in the payload table *)
+Definition has_gated_fn (fn : list Z) : bool :=
+  existsb (fun p => str_eqb (p_fn p) fn && p_gated p) payloads.
+
+Lemma yaqlized_overloads_listed :
+  has_gated_fn [35; 105; 110; 100; 101; 120; 101; 114]%Z = true /\                      (* #indexer *)
+  has_gated_fn [35; 111; 112; 101; 114; 97; 116; 111; 114; 95; 46]%Z = true.            (* #operator_. *)
+Proof. vm_compute. split; reflexivity. Qed.
